@@ -114,6 +114,11 @@ def generate(rng, index: int, tier: str) -> dict:
     tl5 = [{"at": 0.0, "op": "user.init"}]
     t = 6.0
     n = rng.choice([4, 8, 16])
+    if rng.random() < 0.25:
+        # a console that receives timer commands but does not act on them: what the client shows must stay what the console
+        # last reported, on both generations alike
+        for tl in (tl4, tl5):
+            tl.append({"at": 5.9, "op": "console.ignore", "kinds": ["timer_control", "quick_timer"]})
     cur_upd = upd
     for _ in range(n):
         r = rng.random()
